@@ -179,7 +179,12 @@ fn key(rng: &mut Rng, slot: &ethnum::U256) -> Vec<u8> {
             v.extend([0x5f, 0x52]);
             v.extend(pw(*slot));
             v.extend([0x60, 0x20, 0x52, 0x60, 0x40, 0x5f, 0x20]);
-            if rng.below(3) == 0 { v.extend(pw(ethnum::U256::new(1 + rng.below(3) as u128))); v.push(0x01); }
+            if rng.below(3) == 0 {
+                // struct member offset: small, or a boundary constant (the projection is multiplied by 256 and added to sizes)
+                let big = [ethnum::U256::new((1 << 56) - 1), ethnum::U256::new(1 << 56), ethnum::U256::new((1 << 56) - 2), ethnum::U256::new(u64::MAX as u128), ethnum::U256::new(1 << 64), ethnum::U256::ONE << 255u32, ethnum::U256::MAX, ethnum::U256::new(1 << 48)];
+                let c = if rng.below(3) == 0 { big[rng.below(big.len() as u64) as usize] } else { ethnum::U256::new(1 + rng.below(3) as u128) };
+                v.extend(pw(c)); v.push(0x01);
+            }
             v
         }
         3 => {
@@ -295,4 +300,37 @@ fn c01_long_repetitive_programs_terminate() {
         }
     }
     println!("CASES c01_long {cases}");
+}
+
+/// two (or three) stores through the same mapping at struct-member offsets taken from the boundary constants: the member
+/// offset is turned into a bit position (x 256) and later added to sizes when the members' types meet
+#[test]
+fn c01_mapping_member_offsets_at_the_boundaries() {
+    use std::io::Write;
+    std::panic::set_hook(Box::new(|_| {}));
+    let one = ethnum::U256::ONE;
+    let offs = [ethnum::U256::ZERO, one, ethnum::U256::new(2), ethnum::U256::new((1 << 56) - 2), ethnum::U256::new((1 << 56) - 1), ethnum::U256::new(1 << 56), ethnum::U256::new((1 << 56) + 1),
+        ethnum::U256::new(u64::MAX as u128 >> 8), ethnum::U256::new(u64::MAX as u128), one << 64u32, one << 128u32, one << 255u32, ethnum::U256::MAX];
+    let store = |c: &ethnum::U256, key_src: u8| -> Vec<u8> {
+        // sstore(keccak(<key_src> ++ 1) + c, 1)
+        let mut v = vec![0x60, 0x01, key_src, 0x5f, 0x52, 0x60, 0x01, 0x60, 0x20, 0x52, 0x60, 0x40, 0x5f, 0x20];
+        v.extend(pw(*c)); v.extend([0x01, 0x55]);
+        v
+    };
+    let mut cases = 0;
+    for a in &offs { for b in &offs {
+        for key_src in [0x36u8, 0x33] {
+            let mut code = store(a, key_src);
+            code.extend(store(b, key_src));
+            if (a.as_u64() ^ b.as_u64()) & 1 == 1 { code.extend(store(&(one << 56u32), key_src)); }
+            code.push(0x00);
+            println!("RUNNING c01_mapping_offsets {code:02x?}");
+            std::io::stdout().flush().ok();
+            if let Out::Panic = analyze(&code, true) {
+                witness("C01", "analyze.panic.mapping_member_offsets", format!("mapping stores at member offsets {a:#x} and {b:#x}: {code:02x?}"), "PANIC".into(), "layout or error".into());
+            }
+            cases += 1;
+        }
+    } }
+    println!("CASES c01_mapping_offsets {cases}");
 }
